@@ -21,25 +21,46 @@ LEVEL_TEXT = ("Coq theorems over an exact-rational model of the criterion famili
               "division count/(ploidy*k)) and proved equal to the count-based definition for every selection of up to 2^53 chromosome copies "
               "and every target frequency in [0,1] (through Flocq); the former code (rounded reciprocal, tmajor computed with the tminor test) "
               "is refuted on separately named old_ definitions as a regression witness. The model is tied to the code by evaluating it inside "
-              "Coq against latentfn/evalfn/evaluate/nlatent of all 61 evaluable concrete problem classes on generated data")
+              "Coq against latentfn/evalfn/evaluate/nlatent of all 61 evaluable concrete problem classes on generated data. "
+              "Kernel expressions regenerated from the source on every run (Gen/C05_Kernel.v, 173 definitions: guard and normalisation of all 39 "
+              "vector-encoded latent functions, sign / 1/k coefficient of every linear, quadratic, L1 and family body, order of the latent blocks, the "
+              "binary64 frequency quotient with its threshold and flag algebra for PAU/MOGS and what the tfreq setter stores in which flag, OPV / "
+              "genotype-builder coefficients and slice, evalfn, the transformations of trans.py, the usefulness-criterion formula, the accumulate-and-divide "
+              "loop of the EMBV problems and the replicate buffer / loop count / progeny count of the EMBV matrix factory) are proved equal to the model's "
+              "expressions, and the availability, scale-invariance and guard-boundary theorems are restated about the generated definitions, so a changed "
+              "expression breaks Props/C05.vo independently of the sampled cases. Further theorems: a re-used problem object answers each call from the "
+              "data assigned last (any history), the linear criteria are homogeneous of degree one in their table, the expected maximum breeding value "
+              "of a line whose progeny all have breeding value b is b")
 LEVEL_NOTE = ("trusted: Coq kernel + vm_compute, PrimFloat primitives; BLAS/numpy summation order is not modelled (values compared within 2^-30 of "
               "the exact rational, exactly on power-of-two cases); sqrt (norms, usefulness criterion), the normal density (selection intensity), "
               "arcsin/sqrt weights and Cholesky factors are compared through their squares / within tolerance by the predicate only; factory "
               "methods are checked by the independent predicate (definition recomputed from the population, taxon-permutation equivariance) "
               "and, where the definition is rational (gebv, integer-alpha gwgebv, haplotype values, L1 tensor, cross maps, selfed EMBV), by the "
-              "Coq model too; the |sum x| < 1e-10 guard of the real-encoded classes stays a known finding (design decision of the library); "
+              "Coq model too; the expected-maximum-breeding-value factories are compared with the definition (mean over exactly the replicates drawn of "
+              "the maximum over the progeny of the replicate) on the progeny the library itself simulated, which the harness records at the library's call of "
+              "dense_dh / MatingProtocol.mate (that those progeny are Mendelian is only checked allele-wise here; meiosis is C01/C02); the kernel translator "
+              "(harness/translate/c05_kernel.py on top of pyexpr) is trusted and fails closed; the flags the PAU / MOGS tfreq setters store are not refreshed by an "
+              "in-place update of the target array (known finding C05-tfreq-inplace-stale-flags: modelled as coded, refuted, proved under the exact guard 'no target changes "
+              "its class'); the |sum x| < 1e-10 guard of the real-encoded classes stays a known finding (design decision of the library); "
               "the binary64 division theorem rests on Flocq's PrimFloat bridge (classical reals); simulation-based problems (look-ahead) are out of scope")
 TECHNIQUE = "Coq proof over an executable rational/binary64 model; in-Coq vm_compute correspondence with the implementation; exact-rational predicate"
 RULE = ("case = (criterion family, candidate data on a dyadic grid, selected multiset s, listing permutation, positive scale a, free real / "
         "integer vectors, objective/constraint weights and transformation specs) evaluated on all encodings of that family, or "
         "(population, taxon permutation, factory) for the factory clause (the usefulness-criterion constructors from_pgmat_gpmod and from_pgmat_gpmod_xmap "
         "with every variance-matrix factory of pybrops.model.vmat.fcty they accept — two-way, dihybrid, three-way, four-way — on parents with "
-        "distinct breeding values, contributions written down in the harness), or the class / variance-factory enumeration cases; one PRNG; sizes n 1..8 (up to 206 for "
+        "distinct breeding values, contributions written down in the harness; the EMBV matrix factory with nrep / nprogeny as scalars and as per-taxon arrays with "
+        "unequal entries, sorted both ways, int32/int64; the EMBV problem factories with SelfCross, TwoWayCross and TwoWayDHCross on homozygous and segregating parents; "
+        "from_numpy of the weighted classes), or the class / factory-method / variance-factory enumeration cases; every latent case with at most 12 candidates is also a "
+        "session on the same problem objects (inputs left intact; new data through every property setter incl. the flags a setter derives; deep copy equal and "
+        "array-disjoint; in-place update of a data array seen by the next call) and is repeated on data scaled by 2^-40, 2^-20, 2^12 or 2^20 (exact scale law); "
+        "targets 2^-40 and 1-2^-40 next to exact 0 / 1; one PRNG; sizes n 1..8 (up to 206 for "
         "the allele-frequency families so that ploidy*k hits 49, 98, 103, 107 where a rounded reciprocal is inexact), target frequencies incl. "
         "exactly 0 and 1, k 1..6 incl. repeated members, zero vectors, guard-region sums; "
         "non-trivial = at least two distinct members selected out of >= 3 candidates; distinct by SHA-256 of the case")
 TRUSTED = ["numpy/BLAS dot and pairwise summation: compared in tolerance regime T (2^-30) against exact rationals, exactly (E) when k and the sums are powers of two",
            "int8 genotype sums and int->float conversion are exact (modelled by PrimFloat.of_uint63)",
+           "harness/translate/c05_kernel.py (ast -> Gallina for the kernel expressions; fail closed)",
+           "the progeny recorded at dense_dh / MatingProtocol.mate are what the EMBV factories average over (module attribute / subclass spies installed by the harness, no hooks in the library)",
            "haplotype block boundaries (haplobin*, property C18), genetic variance matrices (C12), coancestry matrices (C13) and gebv() are taken from pybrops when the factory clause is checked"]
 ASSUMPTIONS = ["decision vectors: subset = indices into the candidates (repeats allowed only where noted), integer >= 0, binary in {0,1}, real >= 0",
                "kinship factors are upper triangular as the constructors require", "mkrwt >= 0, tfreq in [0,1]"]
@@ -83,6 +104,11 @@ SKIPPED = {
     "RealLookAheadGeneralizedWeightedGenomicSelectionProblem": "latentfn simulates breeding cycles with the global numpy.random stream "
                                                                "(meiosis/mating are properties C01/C08); no closed-form definition to compare with",
 }
+
+# public functions of sel/prob/trans.py: driven as objective / constraint transformations (see _trans_fn), or skipped with a reason
+TRANS_DRIVEN = {"trans_identity", "trans_empty", "trans_sum", "trans_dot", "trans_decnvec_sum_eq"}
+TRANS_SKIPPED = {"trans_ndpt_to_vec_dist": "a transformation of a whole non-dominated point set (front -> distances to a vector), not of a latent vector: "
+                                           "it is the default ndset_trans of the selection protocols and is checked by property C19"}
 
 # variance-matrix factories the usefulness-criterion constructors are driven with: class name (module of the same name in
 # pybrops.model.vmat.fcty) -> (number of parents, expected parental genome contributions in the column order of the cross map).
@@ -274,6 +300,7 @@ def run_latent(case):
     if fam in ("pau", "pafd"):                    # the flags the tfreq setter derives from the targets
         out["tflags"] = _try(lambda: {nm: numpy.asarray(getattr(ps, nm)).astype(int).tolist() for nm in ("tminor", "thet", "tmajor")})
     if fam in SUBSET_ONLY:
+        _lifecycle(case, out, ps, None, xs, None)
         return out
     cnt = _counts(n, s)
     a = float(case["a"])
@@ -300,7 +327,69 @@ def run_latent(case):
     out["ev_real2"] = _ev(pr, xi_f)
     out["evaluate_real"] = _evaluate(pr, [xr, xi_f])
     out["zero_real"] = _lat(pr, numpy.zeros(n))
+    _lifecycle(case, out, ps, pr, xs, xr)
     return out
+
+def _lifecycle(case, out, ps, pr, xs, xr):
+    """the same problem objects, after the calls above: (1) decision vectors and data arrays are left untouched by latentfn /
+    evalfn / evaluate; (2) new data assigned through the property setters -> the next call answers for the NEW data (flags
+    derived by a setter included); (3) a deep copy answers the same and shares no array with the original; (4) an in-place
+    update of a data array is seen by the next call; (5) the problem built on data scaled by 2^e (scale law)."""
+    import copy
+    fam, d, ev = case["fam"], case["data"], case["eval"]
+    if "data2" not in case: return
+    # (1)
+    def intact():
+        bad = []
+        if not numpy.array_equal(xs, numpy.array(case["s"], dtype=int)): bad.append("subset decision vector")
+        if xr is not None and not numpy.array_equal(xr, numpy.array(case["xr"], dtype=float)): bad.append("real decision vector")
+        for prob, tag in ((ps, "subset"), (pr, "real")):
+            if prob is None: continue
+            for a, v in _data_kwargs(fam, d).items():
+                if not numpy.array_equal(numpy.asarray(getattr(prob, SETTER.get(a, a))), numpy.asarray(v)): bad.append("%s problem's %s" % (tag, a))
+        return bad
+    out["mutated"] = _try(intact)
+    # (2)
+    d2 = case["data2"]
+    def assign(prob):
+        for a, v in _data_kwargs(fam, d2).items(): setattr(prob, SETTER.get(a, a), v)
+    out["sess_set"] = _try(lambda: (assign(ps), assign(pr) if pr is not None else None) and None)
+    out["sess_sub"] = _lat(ps, xs)
+    out["sess_nlatent"] = _try(lambda: int(ps.nlatent))
+    if fam in ("pau", "pafd"):
+        out["sess_tflags"] = _try(lambda: {nm: numpy.asarray(getattr(ps, nm)).astype(int).tolist() for nm in ("tminor", "thet", "tmajor")})
+    if pr is not None: out["sess_real"] = _lat(pr, xr)
+    # (3)
+    def cp():
+        pc = copy.deepcopy(ps)
+        r = _hx(pc.latentfn(xs))
+        a, _ = doubled_first(fam, d2)
+        arr = getattr(pc, SETTER.get(a, a)); arr *= 3
+        g = getattr(pc, "geno", None)
+        if g is not None: g[...] = 0
+        return r
+    out["copy_sub"] = _try(cp)
+    out["after_copy_mut"] = _lat(ps, xs)
+    # (4)
+    def inplace():
+        a, _ = doubled_first(fam, d2)
+        for prob in (ps, pr):
+            if prob is not None:
+                arr = getattr(prob, SETTER.get(a, a)); arr *= 2
+    out["inplace_set"] = _try(inplace)
+    out["inplace_sub"] = _lat(ps, xs)
+    if pr is not None: out["inplace_real"] = _lat(pr, xr)
+    # (4b) in-place update of the target array (allele-frequency families)
+    if "tf3" in case:
+        def tf_inplace(): ps.tfreq[...] = numpy.array(case["tf3"], dtype=float)
+        out["tf3_set"] = _try(tf_inplace)
+        out["tf3_sub"] = _lat(ps, xs)
+    # (5)
+    dsc = scaled_data(fam, d, case["sc"])
+    if dsc is not None:
+        k = len(case["s"])
+        out["sc_sub"] = _try(lambda: _hx(make_problem(fam, "Subset", dsc, max(k, 1), ev).latentfn(xs)))
+        if pr is not None: out["sc_real"] = _try(lambda: _hx(make_problem(fam, "Real", dsc, k, ev).latentfn(numpy.array(case["xr"], dtype=float))))
 
 # ------------------------------------------------------------------------------------------------ case generation
 def _dy(rng, lo=-64, hi=64, den=16):
@@ -333,7 +422,8 @@ def gen_data(rng, fam, n, t, ploidy=None):
         geno = [[{"fix0": 0, "fix1": ploidy, "one": ploidy, "poly": rng.randint(0, ploidy)}[kinds[j]] for j in range(p)] for _ in range(n)]
         for j in range(p):
             if kinds[j] == "one": geno[rng.randrange(n)][j] = ploidy - 1
-        tf = lambda: rng.choice([0.0, 1.0, 0.5, 0.25, rng.randint(1, 15) / 16])       # targets of exactly 0 / 1 are ordinary cases
+        # targets of exactly 0 / 1 are ordinary cases; 2^-40 and 1 - 2^-40 sit next to them (a tolerance instead of the exact test must show)
+        tf = lambda: rng.choice([0.0, 1.0, 0.5, 0.25, rng.randint(1, 15) / 16, 0.0, 1.0, 2.0 ** -40, 1.0 - 2.0 ** -40])
         return {"geno": geno, "ploidy": ploidy, "mkrwt": [[rng.randint(0, 32) / 8 for _ in range(t)] for _ in range(p)],
                 "tfreq": [[tf() for _ in range(t)] for _ in range(p)]}
     if fam in ("opv", "gb"):
@@ -342,6 +432,52 @@ def gen_data(rng, fam, n, t, ploidy=None):
         if fam == "gb": d["nbestfndr"] = 1
         return d
     raise ValueError(fam)
+
+SETTER = {"wgebv": "gwgebv"}            # constructor keyword -> property name where they differ
+
+def gen_data2(rng, fam, d):
+    """fresh data of exactly the shapes of d (assigned through the property setters of a problem that has already been used)"""
+    n = _ncand(fam, d)
+    if fam in LINEAR:
+        a = FAMILIES[fam][2][0]; return {a: _mat(rng, n, len(d[a][0]))}
+    if fam == "ocs": return {"ebv": _mat(rng, n, len(d["ebv"][0])), "C": _triu(rng, n)}
+    if fam in ("mgr", "meh"): return {"C": _triu(rng, n)}
+    if fam == "l2": return {"C": [_triu(rng, n) for _ in d["C"]]}
+    if fam == "l1": return {"V": [[[_dy(rng) for _ in range(n)] for _ in V] for V in d["V"]]}
+    if fam == "fam":
+        ids = list(d["familyid"]); rng.shuffle(ids)
+        return {"ebv": _mat(rng, n, len(d["ebv"][0])), "familyid": ids}
+    if fam in ("pafd", "pau", "mogs"):
+        p, t = len(d["mkrwt"]), len(d["mkrwt"][0])
+        tf = lambda: rng.choice([0.0, 1.0, 0.5, 0.75, rng.randint(1, 15) / 16])
+        return {"geno": d["geno"][1:] + d["geno"][:1], "ploidy": d["ploidy"], "mkrwt": [[rng.randint(0, 32) / 8 for _ in range(t)] for _ in range(p)],
+                "tfreq": [[tf() for _ in range(t)] for _ in range(p)]}
+    if fam in ("opv", "gb"):
+        H = d["haplomat"]
+        d2 = {"haplomat": [[[[_dy(rng) for _ in blk] for blk in tx] for tx in ph] for ph in H]}
+        if fam == "gb": d2["nbestfndr"] = d["nbestfndr"]
+        return d2
+    raise ValueError(fam)
+
+def _mapf(f, a):
+    return [_mapf(f, v) for v in a] if isinstance(a, list) else f(a)
+
+# scale law: which data arrays are multiplied by 2^e, and which latent components then scale by 2^e (exactly, in binary64)
+SCALED_ARGS = {"ocs": ["ebv", "C"], "mgr": ["C"], "l2": ["C"], "l1": ["V"], "fam": ["ebv"], "pafd": ["mkrwt"], "pau": ["mkrwt"], "mogs": ["mkrwt"],
+               "opv": ["haplomat"], "gb": ["haplomat"]}
+def scaled_data(fam, d, e):
+    if fam == "meh": return None                      # -(1 - norm) is not homogeneous
+    args = SCALED_ARGS.get(fam) or [FAMILIES[fam][2][0]]
+    return {k: (_mapf(lambda v: v * 2.0 ** e, v) if k in args else v) for k, v in d.items()}
+def scaled_components(fam, d):
+    """indices of the latent vector that are homogeneous of degree one in the scaled arrays"""
+    nl = nlatent_of(fam, d)
+    return list(range(len(d["ebv"][0]))) if fam == "fam" else list(range(nl))
+
+def doubled_first(fam, d):
+    """the data after the in-place update  first float array *= 2  (allele-frequency families: mkrwt)"""
+    a = "mkrwt" if fam in ("pafd", "pau", "mogs") else FAMILIES[fam][2][0]
+    return a, {k: (_mapf(lambda v: v * 2.0, v) if k == a else v) for k, v in d.items()}
 
 TRANS_KINDS = ["none", "id", "empty", "sum", "dot", "decnsum", "mix"]
 def gen_eval(rng, nlat):
@@ -399,6 +535,11 @@ def gen_latent(rng, fam, mode="rand"):
     xi = [rng.choice([0, 0, 1, 1, 2, 3]) for _ in range(n)]
     if rng.random() < 0.85 and sum(xi) == 0: xi[rng.randrange(n)] = 1
     c = {"kind": "latent", "fam": fam, "data": d, "s": s, "perm": perm, "a": a, "xr": xr, "xi": xi, "eval": gen_eval(rng, nlatent_of(fam, d))}
+    if n <= 12:                 # lifecycle / scale dimensions (kept off the 49..107-candidate cases, whose point is the frequency rounding)
+        c["data2"] = gen_data2(rng, fam, d)
+        c["sc"] = rng.choice([-40, -20, 12, 20])
+        if afam:                # targets written IN PLACE into the array the problem holds, after the setter ran
+            c["tf3"] = [[rng.choice([0.0, 1.0, 0.5, v, v]) for v in r] for r in c["data2"]["tfreq"]]
     return c
 
 def gen_guard(rng, fam, which=None):
@@ -506,6 +647,53 @@ def _evalfn_ok(ev, x, lat, got):
         if gl is None or len(gl) != len(want) or not all(_close(a, b) for a, b in zip(gl, want)): return False
     return True
 
+STALE_TF = "after an in-place update of the target array the latent vector != definition on the current targets (the flags stored by the tfreq setter are stale)"
+
+def _tf_class_changes(fam, tf_set, tf_now):
+    """does some target leave its class (the classes the stored flags encode)?"""
+    if fam == "mogs": cls = lambda v: (v <= 0, v >= 1)
+    else: cls = lambda v: (v == 0, 0 < v < 1, v == 1)
+    return any(cls(a) != cls(b) for ra, rb in zip(tf_set, tf_now) for a, b in zip(ra, rb))
+
+def _pred_lifecycle(case, out, c, sub):
+    if "data2" not in case: return []
+    bad = []
+    fam, d, d2, s = case["fam"], case["data"], case["data2"], case["s"]
+    n = _ncand(fam, d)
+    dup = max(_counts(n, s) + [0]) > 1
+    if out["mutated"]: bad.append("latentfn / evalfn / evaluate modified their inputs in place: %s" % ", ".join(out["mutated"]))
+    sub_ok = not (fam == "fam" and dup)
+    want2 = defn(fam, d2, c, s)
+    if sub_ok and not _match(_frl(out["sess_sub"]), want2): bad.append("after new data were assigned through the setters, the subset latent vector != definition on the NEW data (family %s)" % fam)
+    if out["sess_nlatent"] != len(out["sess_sub"]): bad.append("nlatent after the setters")
+    if "sess_tflags" in out:
+        for nm, test in (("tminor", lambda v: v == 0), ("thet", lambda v: 0 < v < 1), ("tmajor", lambda v: v == 1)):
+            if out["sess_tflags"][nm] != [[int(test(v)) for v in r] for r in d2["tfreq"]]: bad.append("%s flags after the tfreq setter != their definition on the new targets" % nm)
+    xr = [F(v) for v in case["xr"]]; tot = sum(xr)
+    if "sess_real" in out and tot > 0 and not (fam in GUARDED and tot < F(EPS)):
+        cw = [v / tot for v in xr]; mem = [i for i in range(n) if xr[i] > 0]
+        if not _match(_frl(out["sess_real"]), defn(fam, d2, cw, mem)): bad.append("after new data were assigned through the setters, the real latent vector != definition on the NEW data")
+    if out["copy_sub"] != out["sess_sub"]: bad.append("a deep copy of the problem gives a different latent vector")
+    if out["after_copy_mut"] != out["sess_sub"]: bad.append("modifying the arrays of a deep copy changed the original problem's latent vector (shared arrays)")
+    a, d3 = doubled_first(fam, d2)
+    if sub_ok and not _match(_frl(out["inplace_sub"]), defn(fam, d3, c, s)): bad.append("after an in-place update of %s the subset latent vector != definition on the updated data (stale state)" % a)
+    if "inplace_real" in out and tot > 0 and not (fam in GUARDED and tot < F(EPS)):
+        if not _match(_frl(out["inplace_real"]), defn(fam, d3, cw, mem)): bad.append("after an in-place update of %s the real latent vector != definition on the updated data (stale state)" % a)
+    if "tf3" in case:
+        d4 = dict(d3, tfreq=case["tf3"])
+        if not _match(_frl(out["tf3_sub"]), defn(fam, d4, c, s)): bad.append(STALE_TF)
+    if "sc_sub" in out:
+        sc = F(2) ** case["sc"]; comps = scaled_components(fam, d)
+        for key, base in (("sc_sub", out["sub"]), ("sc_real", out.get("xr"))):
+            if key not in out or base is None: continue
+            g, b = _frl(out[key]), _frl(base)
+            if g is None or b is None:
+                if not (g is None and b is None): bad.append("%s: data scaled by 2^%d gives no value" % (key, case["sc"]))
+                continue
+            if len(g) != len(b) or any(g[i] != sc * b[i] for i in comps) or any(g[i] != b[i] for i in range(len(b)) if i not in comps):
+                bad.append("scale law: data * 2^%d must give exactly 2^%d * latent vector (%s)" % (case["sc"], case["sc"], key))
+    return bad
+
 def pred_latent(case, out):
     bad = []
     fam, d, s, ev = case["fam"], case["data"], case["s"], case["eval"]
@@ -544,8 +732,9 @@ def pred_latent(case, out):
             if have is None or len(have) != len(exps): bad.append("%s[%s] has wrong shape" % (key, nm)); continue
             for h, e in zip(have, exps):
                 if not _closel(_frl(h), _frl(e[ix])): bad.append("%s[%s] row != evalfn of that row" % (key, nm))
+    bad += _pred_lifecycle(case, out, c, sub)
     if fam in SUBSET_ONLY:
-        return bad
+        return bad[:8]
     guarded = fam in GUARDED
     # ---- encodings of the same contributions
     for key in ("int", "bin", "binb", "real", "real_a"):
@@ -646,6 +835,27 @@ def emit_latent(case, out):
     if "tflags" in out:
         for nm, fn in (("tminor", "t_minor"), ("thet", "t_het"), ("tmajor", "t_major")):
             parts.append("list_eqb bl_eqb %s (map (map %s) %s)" % (E.lst2([[bool(v) for v in r] for r in out["tflags"][nm]], E.b), fn, _ql2(d["tfreq"])))
+    if "data2" in case and not any(isinstance(out.get(k_), dict) for k_ in ("sess_set", "inplace_set", "mutated")):
+        d2 = case["data2"]; a3, d3 = doubled_first(fam, d2)
+        parts.append("(let fd := %s in agree %s %s (latent n fd %s) && Nat.eqb %s (nlatent_of fd))" % (emit_fdata(fam, d2), ex_sub, _oimpl(out["sess_sub"]), sub, E.nat(out["sess_nlatent"])))
+        parts.append("(let fd := %s in agree %s %s (latent n fd %s))" % (emit_fdata(fam, d3), ex_sub, _oimpl(out["inplace_sub"]), sub))
+        if "sess_tflags" in out:
+            for nm, fn in (("tminor", "t_minor"), ("thet", "t_het"), ("tmajor", "t_major")):
+                parts.append("list_eqb bl_eqb %s (map (map %s) %s)" % (E.lst2([[bool(v) for v in r] for r in out["sess_tflags"][nm]], E.b), fn, _ql2(d2["tfreq"])))
+        if "sess_real" in out:
+            parts.append("(let fd := %s in agree false %s (latent n fd (DVec %s)))" % (emit_fdata(fam, d2), _oimpl(out["sess_real"]), _ql(case["xr"])))
+            parts.append("(let fd := %s in agree false %s (latent n fd (DVec %s)))" % (emit_fdata(fam, d3), _oimpl(out["inplace_real"]), _ql(case["xr"])))
+        dsc = scaled_data(fam, d, case["sc"])
+        if dsc is not None:
+            parts.append("(let fd := %s in agree %s %s (latent n fd %s))" % (emit_fdata(fam, dsc), ex_sub, _oimpl(out["sc_sub"]), sub))
+        if "tf3" in case and not isinstance(out.get("tf3_set"), dict):
+            # the code as it is: flags of the targets at the setter (data2), distances to the targets written in place afterwards
+            com = "%s %s %s %s %s %d %d %s" % (E.z(d3["ploidy"]), E.lst2(d3["geno"], E.z), _ql2(d3["mkrwt"]), _ql2(d3["tfreq"]), _ql2(case["tf3"]),
+                                               len(d3["mkrwt"]), len(d3["mkrwt"][0]), _natl(s))
+            if fam == "pafd":
+                parts.append("(let fd := %s in agree false %s (latent n fd %s))" % (emit_fdata(fam, dict(d3, tfreq=case["tf3"])), _oimpl(out["tf3_sub"]), sub))
+            else:
+                parts.append("agree false %s (Some (map Ex (%s %s)))" % (_oimpl(out["tf3_sub"]), "pau_stale" if fam == "pau" else "mogs_stale", com))
     if fam not in SUBSET_ONLY:
         a = case["a"]
         vec = lambda x: "(DVec %s)" % _ql(x)
@@ -693,15 +903,44 @@ def gen_pop(rng, homozygous=False, n=None):
             "u": u, "beta": [_dy(rng) for _ in range(t)],
             "bv": {"mat": _mat(rng, n, t), "location": [_dy(rng) for _ in range(t)], "scale": [rng.choice([1.0, 0.5, 2.0, 1.5]) for _ in range(t)]}}
 
-FACTORIES = ["ebv", "gebv_bvmat", "gebv_gmat", "gwgebv", "wgs", "ocs", "mgr", "meh", "l2", "l2w", "l1", "fam", "uc", "uc_xmap", "ohv", "opv", "gb",
+# factory classmethods (from_*) of every family that the factory cases drive; the enumeration case fails on any from_* method of a
+# concrete class that is neither listed here nor skipped with a reason
+FACTORY_METHODS = {
+    "ebv": {"from_bvmat"}, "gebv": {"from_bvmat", "from_gmat_gpmod"}, "gwgebv": {"from_gmat_algpmod", "from_numpy"}, "wgs": {"from_gmat_algpmod", "from_numpy"},
+    "embv": {"from_pgmat_gpmod"}, "rand": {"from_object"}, "uc": {"from_pgmat_gpmod", "from_pgmat_gpmod_xmap"}, "ohv": {"from_pgmat_gpmod"},
+    "ocs": {"from_bvmat_gmat"}, "mgr": {"from_gmat"}, "meh": {"from_gmat"}, "l2": {"from_gmat"}, "l1": {"from_numpy"}, "fam": {"from_bvmat"},
+    "pafd": {"from_gmat_gpmod"}, "pau": {"from_gmat_gpmod"}, "mogs": {"from_gmat_gpmod"}, "opv": {"from_pgmat_gpmod"}, "gb": {"from_pgmat_gpmod"},
+}
+FACTORY_SKIPPED = {
+    ("MultiObjectiveGenomicSubsetMatingProblem", "from_object"): "the class is an explicit stub (latentfn raises unconditionally; see SKIPPED)",
+}
+
+FACTORIES = ["gwgebv_np", "wgs_np", "ebv", "gebv_bvmat", "gebv_gmat", "gwgebv", "wgs", "ocs", "mgr", "meh", "l2", "l2w", "l1", "fam", "uc", "uc_xmap", "ohv", "opv", "gb",
              "pafd", "pau", "mogs", "embv", "rand", "wgebvmat", "embvmat"]
 
 def _distinct_bv(pop):
     X, u, beta, gebv, f = pop_truth(pop)
     return len({tuple(r) for r in gebv.tolist()}), len({r[0] for r in gebv.tolist()})
 
-def gen_factory(rng, which, vf=None):
-    homo = which in ("embv", "embvmat")
+EMBV_PROT = {"SelfCross": 1, "TwoWayCross": 2, "TwoWayDHCross": 2}     # mating protocol -> number of parents
+
+def _per_taxon(rng, n, choices, form=None):
+    """an argument the library accepts as "scalar or per-taxon array": a scalar, or a list with UNEQUAL entries (n >= 2) whose
+    first / last entries are not always the largest (stale rows of a shared buffer, an index taken from the wrong taxon)"""
+    form = form or rng.choice(["scalar", "array", "array"])
+    if form == "scalar" or n < 2: return rng.choice(choices)
+    for _ in range(50):
+        v = [rng.choice(choices) for _ in range(n)]
+        if len(set(v)) > 1: break
+    else:
+        v = [choices[0]] * (n - 1) + [choices[-1]]
+    style = rng.random()
+    if style < 0.35: v.sort()                      # the first taxon has the fewest
+    elif style < 0.7: v.sort(reverse=True)         # the first taxon has the most
+    return v
+
+def gen_factory(rng, which, vf=None, form=None):
+    homo = which in ("embv", "embvmat") and rng.random() < 0.4
     pop = gen_pop(rng, homozygous=homo)
     if which in ("uc", "uc_xmap"):
         # enough taxa for the cross, and parents whose breeding values differ (a contribution-weighted mean then differs from a plain mean)
@@ -715,7 +954,7 @@ def gen_factory(rng, which, vf=None):
         pop = best[1]
     n, p, t = len(pop["labels"]), len(pop["chrgrp"]), len(pop["beta"])
     args = {"unscale": rng.random() < 0.5, "phased": rng.random() < 0.5}
-    if which == "gwgebv": args["alpha"] = rng.choice([0.0, 1.0, 2.0, 0.5])
+    if which in ("gwgebv", "gwgebv_np"): args["alpha"] = rng.choice([0.0, 1.0, 2.0, 0.5])
     if which in ("uc", "uc_xmap", "ohv"):
         args.update(nparent=2, unique=rng.random() < 0.5, nprogeny=rng.choice([5, 10]), pct=rng.choice([0.1, 0.25, 0.5]))
     if which in ("uc", "uc_xmap"):
@@ -728,8 +967,13 @@ def gen_factory(rng, which, vf=None):
         nchr = len(set(pop["chrgrp"]))
         args["nhaploblk"] = rng.randint(nchr, min(p, nchr + 2))
     if which == "gb": args["nbestfndr"] = rng.randint(1, n)
-    if which == "embv": args.update(nrep=rng.choice([1, 2, 3]), nprogeny=rng.choice([1, 2]), unique=rng.random() < 0.5)
-    if which == "embvmat": args.update(nrep=rng.choice([1, 2]), nprogeny=rng.choice([1, 3]))
+    if which == "embv":
+        prot = rng.choice(["SelfCross", "SelfCross", "TwoWayCross", "TwoWayDHCross"])
+        args.update(prot=prot, nparent=EMBV_PROT[prot], nmating=rng.choice([1, 1, 2]), nrep=rng.choice([1, 2, 3]), nprogeny=rng.choice([1, 2, 3]),
+                    unique=rng.random() < 0.5, seed=rng.randrange(2 ** 31), homozygous=homo)
+    if which == "embvmat":
+        args.update(nrep=_per_taxon(rng, n, [1, 2, 3, 4], form), nprogeny=_per_taxon(rng, n, [1, 2, 3, 5], form), seed=rng.randrange(2 ** 31), homozygous=homo,
+                    dtype=rng.choice(["int64", "int64", "int32"]))
     if which in ("pafd", "pau", "mogs"):
         args["callable"] = rng.random() < 0.5
         args["mkrwt"] = [[rng.randint(0, 16) / 8 for _ in range(t)] for _ in range(p)]
@@ -784,7 +1028,7 @@ def run_factory(case):
     which, pop, A = case["which"], case["pop"], case["args"]
     n, p, t = len(pop["labels"]), len(pop["chrgrp"]), len(pop["beta"])
     out = {}
-    fam = {"gebv_bvmat": "gebv", "gebv_gmat": "gebv", "uc_xmap": "uc", "l2w": "l2"}.get(which, which)
+    fam = {"gebv_bvmat": "gebv", "gebv_gmat": "gebv", "uc_xmap": "uc", "l2w": "l2", "gwgebv_np": "gwgebv", "wgs_np": "wgs"}.get(which, which)
     if which == "wgebvmat":
         from pybrops.model.wgebvmat.DenseWeightedGenomicEstimatedBreedingValueMatrix import DenseWeightedGenomicEstimatedBreedingValueMatrix as W
         g, gmod, bv = build_pop(pop, A["phased"])
@@ -796,8 +1040,19 @@ def run_factory(case):
         from pybrops.model.embvmat.DenseExpectedMaximumBreedingValueMatrix import DenseExpectedMaximumBreedingValueMatrix as M
         g, gmod, bv = build_pop(pop, True)
         def f():
-            m = M.from_gmod(gmod, g, A["nprogeny"], A["nrep"])
-            return {"mat": _arr(m.unscale()), "taxa": [str(v) for v in m.taxa], "taxa_grp": _arr(m.taxa_grp)}
+            import importlib
+            mod = importlib.import_module(M.__module__)
+            calls = []
+            old_dh, old_rng = mod.dense_dh, mod.global_prng
+            def spy(geno, sel, xoprob, rng_):
+                r = old_dh(geno, sel, xoprob, rng_)
+                calls.append({"x": numpy.asarray(sel).astype(int).tolist(), "prog": numpy.asarray(r).astype(int).tolist()})
+                return r
+            as_arg = lambda v: numpy.array(v, dtype=A.get("dtype", "int64")) if isinstance(v, list) else int(v)
+            mod.dense_dh, mod.global_prng = spy, numpy.random.default_rng(A.get("seed", 1))
+            try: m = M.from_gmod(gmod, g, as_arg(A["nprogeny"]), as_arg(A["nrep"]))
+            finally: mod.dense_dh, mod.global_prng = old_dh, old_rng
+            return {"mat": _arr(m.unscale()), "taxa": [str(v) for v in m.taxa], "taxa_grp": _arr(m.taxa_grp), "reps": calls}
         out["obj"] = _try(f); return out
     encs = ("Subset",) if fam in SUBSET_ONLY else ENCODINGS
     for enc in encs:
@@ -816,6 +1071,12 @@ def run_factory(case):
                     pr = cls.from_gmat_algpmod(g, gmod, A["alpha"], **_space(enc, n)); return {"gwgebv": _arr(pr.gwgebv)}
                 if which == "wgs":
                     pr = cls.from_gmat_algpmod(g, gmod, **_space(enc, n)); return {"gwgebv": _arr(pr.gwgebv)}
+                if which in ("gwgebv_np", "wgs_np"):
+                    # the arrays are handed over by the harness: genotypes in {0,1,2} coding, effects, favourable-allele frequencies
+                    X, u, beta, gebv, f = pop_truth(pop)
+                    if which == "gwgebv_np": pr = cls.from_numpy(X.copy(), u.copy(), f.copy(), A["alpha"], **_space(enc, n))
+                    else: pr = cls.from_numpy(X.copy(), u.copy(), f.copy(), **_space(enc, n))
+                    return {"gwgebv": _arr(pr.gwgebv)}
                 if which in ("ocs", "mgr", "meh", "l2"):
                     from pybrops.popgen.cmat.fcty.DenseMolecularCoancestryMatrixFactory import DenseMolecularCoancestryMatrixFactory
                     fc = DenseMolecularCoancestryMatrixFactory()
@@ -862,9 +1123,21 @@ def run_factory(case):
                     pr = cls.from_gmat_gpmod(g, w, tg, gmod, **_space(enc, n, nobj=t))
                     return {"geno": _arr(pr.geno), "ploidy": int(pr.ploidy), "mkrwt": _arr(pr.mkrwt), "tfreq": _arr(pr.tfreq)}
                 if which == "embv":
-                    from pybrops.breed.prot.mate.SelfCross import SelfCross
-                    pr = cls.from_pgmat_gpmod(1, 1, A["nprogeny"], A["nrep"], A["unique"], g, gmod, SelfCross(), **_space(enc, n, nobj=t))
-                    return {"embv": _arr(pr.embv), "xmap": _arr(pr.decn_space_xmap)}
+                    import importlib
+                    pname = A.get("prot", "SelfCross")
+                    Base = getattr(importlib.import_module("pybrops.breed.prot.mate." + pname), pname)
+                    calls = []
+                    class Spy(Base):                       # records every simulated progeny matrix the factory asks for
+                        def mate(self, pgmat, xconfig, nmating, nprogeny, miscout=None, **kw):
+                            r = super().mate(pgmat=pgmat, xconfig=xconfig, nmating=nmating, nprogeny=nprogeny, miscout=miscout, **kw)
+                            calls.append({"x": numpy.asarray(xconfig).astype(int).ravel().tolist(), "prog": numpy.asarray(r.mat).astype(int).tolist()})
+                            return r
+                    npar = EMBV_PROT[pname]
+                    nx = len(_embv_xmap(n, npar, A["unique"]))
+                    if nx == 0: return {"skip": True}
+                    pr = cls.from_pgmat_gpmod(npar, A.get("nmating", 1), A["nprogeny"], A["nrep"], A["unique"], g, gmod,
+                                              Spy(rng=numpy.random.default_rng(A.get("seed", 1))), **_space(enc, nx, nobj=t))
+                    return {"embv": _arr(pr.embv), "xmap": _arr(pr.decn_space_xmap), "reps": calls}
                 if which == "rand":
                     import importlib
                     from rngscript import Scripted
@@ -907,6 +1180,63 @@ def pop_truth(pop):
     f = numpy.where(u > 0, c / (2 * n), numpy.where(u < 0, (2 * n - c) / (2 * n), 0.0))     # favourable allele frequency; 0 for no effect
     return X, u, beta, gebv, f
 
+def _embv_xmap(n, npar, unique):
+    it = itertools.combinations(range(n), npar) if unique else itertools.combinations_with_replacement(range(n), npar)
+    return [list(v) for v in it]
+
+def _embv_expect(pop, calls, groups, dh):
+    """the definition of the expected maximum breeding value from the progeny the library simulated.
+    groups = [(parents, number of replicates, progeny per replicate)] in the order the factory must work through them.
+    Returns (problems, table of mean-of-maxima per group, breeding values per group/replicate/progeny as Fractions)."""
+    bad = []
+    hap = numpy.array(pop["hap"], dtype=int); u = pop["u"]; beta = pop["beta"]
+    p, t = hap.shape[2], len(beta)
+    if len(calls) != sum(g[1] for g in groups):
+        return ["%d progeny simulations, expected %d (sum of the replicate counts)" % (len(calls), sum(g[1] for g in groups))], None, None
+    table, allbv, k = [], [], 0
+    for gi, (parents, nrep, nprog) in enumerate(groups):
+        reps = []
+        for r in range(nrep):
+            c = calls[k]; k += 1
+            prog = numpy.array(c["prog"], dtype=int)
+            if sorted(set(c["x"])) != sorted(set(parents)) or (len(parents) == 1 and c["x"] != parents * len(c["x"])) or (len(parents) > 1 and c["x"] != parents):
+                bad.append("replicate %d of entry %d simulated from parents %s, expected %s" % (r, gi, c["x"], parents))
+            if prog.ndim != 3 or prog.shape[1] != nprog:
+                bad.append("replicate %d of entry %d has %s progeny, expected %d" % (r, gi, prog.shape[1] if prog.ndim == 3 else "?", nprog)); continue
+            if dh and not numpy.array_equal(prog[0], prog[1]): bad.append("a doubled-haploid progeny of entry %d is not homozygous" % gi)
+            allowed = [set(int(hap[m, i, j]) for m in range(hap.shape[0]) for i in parents) for j in range(p)]
+            if any(int(prog[m, g, j]) not in allowed[j] for m in range(prog.shape[0]) for g in range(prog.shape[1]) for j in range(p)):
+                bad.append("a progeny of entry %d carries an allele none of its parents %s has" % (gi, parents))
+            X = prog.sum(0)
+            reps.append([[sum(F(int(X[g, j])) * F(u[j][q]) for j in range(p)) + F(beta[q]) for q in range(t)] for g in range(prog.shape[1])])
+        if len(reps) != nrep or any(len(b) == 0 for b in reps):
+            table.append(None); allbv.append(reps); continue
+        table.append([sum(max(b[q] for b in bvs) for bvs in reps) / len(reps) for q in range(t)]); allbv.append(reps)
+    return bad, table, allbv
+
+def _embv_groups(case):
+    A = case["args"]; n = len(case["pop"]["labels"])
+    if case["which"] == "embvmat":
+        per = lambda v: v if isinstance(v, list) else [v] * n
+        return [([i], r, g) for i, r, g in zip(range(n), per(A["nrep"]), per(A["nprogeny"]))], True
+    pname = A.get("prot", "SelfCross")
+    return [(x, A["nrep"], A.get("nmating", 1) * A["nprogeny"]) for x in _embv_xmap(n, EMBV_PROT[pname], A["unique"])], pname == "TwoWayDHCross"
+
+def _embv_check(case, o, key, tag):
+    """EMBV table of a factory output against the definition on the recorded progeny"""
+    bad = []
+    groups, dh = _embv_groups(case)
+    probs, table, _ = _embv_expect(case["pop"], o.get("reps", []), groups, dh)
+    bad += ["%s: %s" % (tag, b) for b in probs]
+    if table is None or any(r is None for r in table): return bad or ["%s: progeny simulations do not have the expected shape" % tag]
+    got = numpy.array(_unhex(o[key]), dtype=float)
+    want = numpy.array([[float(v) for v in r] for r in table], dtype=float)
+    if not _near(got, want, 2.0 ** -26):
+        rows = [i for i in range(min(len(got), len(want))) if got.shape == want.shape and not _near(got[i], want[i], 2.0 ** -26)]
+        bad.append("%s: %s != mean over exactly the replicates drawn (%s) of the maximum breeding value of the progeny of each replicate (%s), rows %s"
+                   % (tag, key, [g[1] for g in groups], [g[2] for g in groups], rows))
+    return bad
+
 def pred_factory(case, out):
     which, pop, A = case["which"], case["pop"], case["args"]
     X, u, beta, gebv, f = pop_truth(pop)
@@ -942,8 +1272,8 @@ def pred_factory(case, out):
         if which == "ebv": chk("ebv", bvu if A["unscale"] else bvm, "breeding values")
         elif which == "gebv_bvmat": chk("gebv", bvu if A["unscale"] else bvm, "breeding values")
         elif which == "gebv_gmat": chk("gebv", gebv if A["unscale"] else std(gebv), "genomic breeding values", 2.0 ** -26)
-        elif which == "gwgebv": chk("gwgebv", X @ (u * numpy.power(fg, -A["alpha"])), "generalised weighted breeding values")
-        elif which == "wgs": chk("gwgebv", X @ (u * numpy.power(fg, -0.5)), "weighted breeding values")
+        elif which in ("gwgebv", "gwgebv_np"): chk("gwgebv", X @ (u * numpy.power(fg, -A["alpha"])), "generalised weighted breeding values")
+        elif which in ("wgs", "wgs_np"): chk("gwgebv", X @ (u * numpy.power(fg, -0.5)), "weighted breeding values")
         elif which == "ocs":
             chk("ebv", bvu if A["unscale"] else bvm, "breeding values"); chk_factor(o["C"], "C")
         elif which in ("mgr", "meh"): chk_factor(o["C"], "C")
@@ -994,16 +1324,20 @@ def pred_factory(case, out):
             chk("mkrwt", numpy.absolute(u) if A["callable"] else numpy.array(A["mkrwt"]), "marker weights")
             chk("tfreq", numpy.where(u > 0, 1.0, 0.0) if A["callable"] else numpy.array(A["tfreq"]), "target frequencies")
         elif which == "embv":
-            xm = [[i] for i in range(n)]
-            if o["xmap"] != xm: bad.append("%s: cross map != one entry per taxon" % tag); continue
-            chk("embv", gebv, "expected maximum breeding value of the selfed (homozygous) parents = their breeding values")
+            pname = A.get("prot", "SelfCross")
+            xm = _embv_xmap(n, EMBV_PROT[pname], A["unique"])
+            if o["xmap"] != xm: bad.append("%s: cross map != expected list of parent tuples" % tag); continue
+            bad += _embv_check(case, o, "embv", tag)
+            if pname == "SelfCross" and A.get("homozygous", True):
+                chk("embv", gebv, "expected maximum breeding value of the selfed (homozygous) parents = their breeding values")
         elif which == "rand": chk("rbv", numpy.array(A["normals"]), "the drawn values in draw order")
         elif which == "wgebvmat":
             w = numpy.where((f == 0) | (f == 1), 1.0, (math.asin(1.0) - numpy.arcsin(numpy.sqrt(f))) / numpy.sqrt(numpy.where((f == 0) | (f == 1), 1.0, f * (1 - f))))
             chk("mat", X @ (u * w), "arcsine-weighted breeding values", 2.0 ** -26)
             if o["taxa"] != taxa or o["taxa_grp"] != pop["grp"]: bad.append("%s: taxa labels / groups not in the population's order" % tag)
         elif which == "embvmat":
-            chk("mat", gebv, "breeding values of the homozygous parents", 2.0 ** -26)
+            bad += _embv_check(case, o, "mat", tag)
+            if A.get("homozygous", True): chk("mat", gebv, "breeding values of the homozygous parents", 2.0 ** -26)
             if o["taxa"] != taxa or o["taxa_grp"] != pop["grp"]: bad.append("%s: taxa labels / groups not in the population's order" % tag)
     seen = []
     for b in bad:
@@ -1018,7 +1352,7 @@ def _qh(a):
 def emit_factory(case, out):
     """factory data evaluated in Coq for the factories with an exact-rational definition"""
     which, pop, A = case["which"], case["pop"], case["args"]
-    if which not in ("gebv_gmat", "gwgebv", "ohv", "opv", "gb", "l1", "uc", "uc_xmap", "pafd", "pau", "mogs", "embv"): return None
+    if which not in ("gebv_gmat", "gwgebv", "ohv", "opv", "gb", "l1", "uc", "uc_xmap", "pafd", "pau", "mogs", "embv", "embvmat", "gwgebv_np"): return None
     if any(isinstance(o, dict) and ("exc" in o or o.get("skip")) for o in out.values()): return None
     n, p, t = len(pop["labels"]), len(pop["chrgrp"]), len(pop["beta"])
     hap = E.lst3(pop["hap"], E.z); u = _ql2(pop["u"]); beta = _ql(pop["beta"])
@@ -1028,12 +1362,25 @@ def emit_factory(case, out):
         if not A["unscale"]: return None
         head += "let g := gebv_def hap u %s %d %d %d in\n  " % (beta, n, p, t)
         parts = ["qclose_ll %s g" % _qh(o["gebv"]) for o in out.values()]
-    elif which == "embv":
-        # selfing homozygous parents: every progeny is the parent, so the expected maximum is the parent's breeding value, one row per cross
-        head += "let g := gebv_def hap u %s %d %d %d in\n  " % (beta, n, p, t)
-        parts = ["qclose_ll %s g" % _qh(o["embv"]) for o in out.values()]
-        parts += ["list_eqb natl_eqb %s (map (fun i => [i]) (seq 0 %d))" % (E.lst2(o["xmap"], E.nat), n) for o in out.values()]
-    elif which == "gwgebv":
+    elif which in ("embv", "embvmat"):
+        # the model's definition on the breeding values of the progeny the library simulated (recomputed here from the recorded
+        # progeny genotypes): mean over exactly nrep replicates of the maximum over the progeny of the replicate, entry by entry
+        groups, dh = _embv_groups(case)
+        key = "embv" if which == "embv" else "mat"
+        for o in out.values():
+            probs, table, allbv = _embv_expect(pop, o.get("reps", []), groups, dh)
+            if allbv is None: parts.append("false"); continue
+            reps = "[" + "; ".join("[" + "; ".join(E.lst2(bvs, E.q) for bvs in rr) + "]" for rr in allbv) + "]"
+            parts.append("(let reps := %s in qclose_ll %s (embv_def reps %d) && embv_shape_ok reps %s %s)"
+                         % (reps, _qh(o[key]), t, E.lst([g[1] for g in groups], E.nat), E.lst([g[2] for g in groups], E.nat)))
+            if which == "embv":
+                npar = EMBV_PROT[A.get("prot", "SelfCross")]
+                parts.append("list_eqb natl_eqb %s %s" % (E.lst2(o["xmap"], E.nat), E.lst2(_embv_xmap(n, npar, A["unique"]), E.nat)))
+                if npar == 1: parts.append("list_eqb natl_eqb %s (map (fun i => [i]) (seq 0 %d))" % (E.lst2(o["xmap"], E.nat), n))
+                if npar == 2: parts.append("list_eqb natl_eqb %s (if %s then pairs_unique %d else pairs_any %d)" % (E.lst2(o["xmap"], E.nat), E.b(A["unique"]), n, n))
+            if A.get("homozygous") and (which == "embvmat" or A.get("prot", "SelfCross") == "SelfCross"):
+                parts.append("qclose_ll %s (gebv_def hap u %s %d %d %d)" % (_qh(o[key]), beta, n, p, t))
+    elif which in ("gwgebv", "gwgebv_np"):
         if A["alpha"] not in (0.0, 1.0, 2.0): return None
         head += "let g := gwgebv_def hap u %d %d %d %d in\n  " % (int(A["alpha"]), n, p, t)
         parts = ["qclose_ll %s g" % _qh(o["gwgebv"]) for o in out.values()]
@@ -1079,7 +1426,16 @@ def emit_factory(case, out):
 def run_special(case):
     k = case["kind"]
     if k == "classes":
-        return {"concrete": enumerate_concrete()}
+        import importlib
+        have = enumerate_concrete()
+        fm = {}
+        for nme, mod in have.items():
+            cls = getattr(importlib.import_module(mod), nme)
+            fm[nme] = sorted(a for a in dir(cls) if a.startswith("from_") and callable(getattr(cls, a)))
+        import inspect
+        from pybrops.breed.prot.sel.prob import trans as T
+        tf = sorted(n for n, f in vars(T).items() if inspect.isfunction(f) and f.__module__ == T.__name__ and not n.startswith("_"))
+        return {"concrete": have, "factories": fm, "trans": tf}
     if k == "stub":
         import importlib
         cls = getattr(importlib.import_module(P + "MultiObjectiveGenomicMatingProblem"), "MultiObjectiveGenomicSubsetMatingProblem")
@@ -1125,6 +1481,17 @@ def pred_special(case, out):
             elif nme in mapped and mapped[nme] != mod: bad.append("class %s found in %s, expected %s" % (nme, mod, mapped[nme]))
         for nme in list(mapped) + list(SKIPPED):
             if nme not in have: bad.append("class %s of the family table no longer exists as a concrete class" % nme)
+        for nme in out.get("trans", []):
+            if nme not in TRANS_DRIVEN and nme not in TRANS_SKIPPED: bad.append("function %s of sel/prob/trans.py is neither driven as a transformation nor skipped with a reason" % nme)
+        for nme in list(TRANS_DRIVEN) + list(TRANS_SKIPPED):
+            if nme not in out.get("trans", [nme]): bad.append("function %s of the harness table no longer exists in sel/prob/trans.py" % nme)
+        famof = {c: fam for fam in FAMILIES for (m, c) in family_classes(fam).values()}
+        for nme, methods in sorted(out.get("factories", {}).items()):
+            driven = FACTORY_METHODS.get(famof.get(nme), set())
+            for m in methods:
+                if m not in driven and (nme, m) not in FACTORY_SKIPPED: bad.append("factory method %s.%s is neither driven by the factory cases nor skipped with a reason" % (nme, m))
+            for m in driven:
+                if m not in methods: bad.append("factory method %s.%s of the harness table no longer exists" % (nme, m))
         return bad[:8]
     if k == "vmatfcty":
         bad = []
@@ -1171,6 +1538,8 @@ def classify(case, out, clauses):
     Only the 1e-10 guard is still a known finding; everything else that fails is a violation."""
     if not clauses or case["kind"] != "latent": return None
     fam = case["fam"]
+    if fam in ("pau", "mogs") and "tf3" in case and all(c == STALE_TF for c in clauses) and _tf_class_changes(fam, case["data2"]["tfreq"], case["tf3"]):
+        return "C05-tfreq-inplace-stale-flags"
     if fam in GUARDED:
         tot = sum(case["xr"]); a = case["a"]
         ins, ins_a = 0 < tot < EPS, 0 < a * tot < EPS
@@ -1195,7 +1564,11 @@ def describe(case, out):
         return {"kind": k, "family": case["fam"], "k": len(s) if len(s) <= 8 else "49+", "repeats": len(set(s)) < len(s),
                 "candidates": n if n <= 8 else "49+", "guard": case.get("guard", "-"), "obj_trans": case["eval"]["obj"][0][0], "ineq_trans": case["eval"]["ineq"][0][0]}
     if k == "factory":
-        return {"kind": k, "factory": case["which"], "ntaxa": len(case["pop"]["labels"]), "uc_vmat": _vf_short(case["args"].get("vf", "-"))}
+        A = case["args"]
+        return {"kind": k, "factory": case["which"], "ntaxa": len(case["pop"]["labels"]), "uc_vmat": _vf_short(A.get("vf", "-")),
+                "embv": "-" if case["which"] not in ("embv", "embvmat") else "%s/nrep:%s/nprogeny:%s/%s" % (
+                    A.get("prot", "dh"), "array" if isinstance(A["nrep"], list) else "scalar", "array" if isinstance(A["nprogeny"], list) else "scalar",
+                    "homozygous" if A.get("homozygous") else "segregating")}
     return {"kind": k}
 
 def gen_cases(rng, tier):
@@ -1218,6 +1591,10 @@ def gen_cases(rng, tier):
                 for _ in range(2 if q else 10):
                     cases.append(gen_factory(rng, w, vf=vf))
             continue
+        if w == "embvmat":                            # scalar and per-taxon-array forms of nrep / nprogeny on every run
+            for i in range(10 if q else 60):
+                cases.append(gen_factory(rng, w, form=["array", "array", "scalar", None][i % 4]))
+            continue
         for _ in range(6 if q else 40):
             cases.append(gen_factory(rng, w))
     return cases
@@ -1235,3 +1612,10 @@ def shrink(case, fails):
             else: break
         except Exception: break
     return cur
+
+
+def translate(repo, gen_dir):
+    """regenerate Gen/C05_Kernel.v (kernel expressions of every latentfn, evalfn, trans.py, _calc_uc, _calc_embv and the EMBV
+    matrix factory) from the current source; fail closed"""
+    from translate import c05_kernel
+    return [c05_kernel.translate(repo, gen_dir)]
